@@ -102,20 +102,12 @@ pub struct Object {
 }
 
 impl Hash for Object {
-    /// Mark an object's field as transient by prefixing it with `__` (two underscores)
+    /// Two objects are equal exactly when they are the same object (see `PartialEq`), so the
+    /// hash is the identity too: a hash of the fields would change when a field is assigned,
+    /// and a map would lose the entry whose key is that object.
     fn hash<H: std::hash::Hasher>(&self, state: &mut H) {
         self.name.hash(state);
-
-        let mut variables = self.object_variables.iter().collect::<Vec<_>>();
-        variables.sort_by_key(|x| x.0);
-
-        for (name, value) in variables {
-            if !name.starts_with("__") {
-                name.hash(state);
-                value.primitive().hash(state);
-                value.flags().hash(state);
-            }
-        }
+        (self.id_addr() as usize).hash(state);
     }
 }
 
